@@ -93,9 +93,20 @@ def ob_lock(w, P):
         except env.Spin:
             # still waiting for the lock: a legal prefix of the schedule -- the path is abandoned
             raise
+    def grab(name):
+        """acquire and keep holding"""
+        def run():
+            locks[name].acquire()
+            wit.enter(name)
+            outcome[name] = 'held'
+            flag('intruder_acquired')
+        as_client(name, run)
     at = w.int('at', 0, P.get('max_events', 40))
     w.interfere_at = at
-    w.interfere_hook = lambda: block('B', inner_event=P.get('three', False))
+    if P.get('hold'):
+        w.interfere_hook = lambda: grab('B')
+    else:
+        w.interfere_hook = lambda: block('B', inner_event=P.get('three', False))
     if P.get('three'):
         w.interfere2_at = w.int('at2', 0, 20)
         w.interfere2_hook = lambda: block('C')
@@ -132,6 +143,22 @@ def ob_lock(w, P):
     cl.append(('C15', 'never more holders than the capacity (%d) between acquire and release' % cap, not wit.bad))
     if 'badrel' in prog and kind != 'lock':
         cl.append(('C15', 'the refused release raised', refused == prog.count('badrel')))
+    if P.get('hold'):
+        # B may still hold; further contenders now try to acquire one after the other (no nesting): whoever gets in
+        # is counted by the witness; a contender that would have to wait is simply not admitted
+        w.interfere_at = None
+        w.soft_block = True
+        for name in ('C', 'D'):
+            if name not in clients:
+                clients[name] = (400, 1, handle()) if not P.get('same_object') else (100, 4, cA)
+                locks[name] = make_lock(L, kind, clients[name][2], value)
+            try:
+                grab(name)
+            except env.WouldBlock:
+                outcome[name] = 'blocked'
+        cl.append(('C15', 'never more holders than the capacity (%d), also when a contender acquired during a release' % cap, not wit.bad))
+        flag('nontrivial')
+        return cl
     # afterwards the lock is free again: a waiter succeeds
     w.interfere_at = None
     try:
@@ -343,6 +370,9 @@ def jobs(tier):
                     P = dict(kind=kind, prog=prog, same_object=same, value=v)
                     out.append(dict(id='lock.%s.%s.%s.v%d' % (kind, prog.replace(',', '-'), 'thread' if same else 'process', v), func='ob_lock', params=P, tags=['C15'],
                                     functions=LF, weight=6, twin=False, must_reach=['intruder_acquired']))
+        for v in ((2, 1) if kind == 'sem' else (1,)):
+            out.append(dict(id='lock.%s.hold.v%d' % (kind, v), func='ob_lock', params=dict(kind=kind, prog='acq,cs,rel', hold=True, value=v), tags=['C15'], functions=LF, weight=10,
+                            twin=False, must_reach=['intruder_acquired']))
         out.append(dict(id='lock.%s.three' % kind, func='ob_lock', params=dict(kind=kind, prog='acq,cs,rel', three=True, value=2 if kind == 'sem' else 1), tags=['C15'],
                         functions=LF, weight=40, twin=False, must_reach=['interfered2']))
         out.append(dict(id='lock.%s.fanout' % kind, func='ob_lock', params=dict(kind=kind, prog='acq,cs,rel', fanout=True, value=1), tags=['C15'], functions=LF, weight=10, twin=False))
